@@ -204,18 +204,20 @@ fn c14_distribute() {
 
 
 // ---- re-enabling watchpoints after a restart (closure body of WatchpointRegistry::refresh, spliced verbatim)
+/// a trivially droppable error type: debugger::Error's recursive drop glue makes CBMC unwind without bound
+struct LightErr;
 struct WpRec { ok: bool, img: [usize; 6] }
 impl WpRec {
     fn scoped(&self) -> bool { false }
-    fn refresh(&mut self, _tracee_ctl: &()) -> Result<HardwareDebugState, Error> {
-        if self.ok { Ok(m::state_of(self.img)) } else { Err(Error::WatchpointLimitReached) }
+    fn refresh(&mut self, _tracee_ctl: &()) -> Result<HardwareDebugState, LightErr> {
+        if self.ok { Ok(m::state_of(self.img)) } else { Err(LightErr) }
     }
 }
 struct DebugeeRec;
 impl DebugeeRec { fn tracee_ctl(&self) -> &() { &() } }
 struct RegistryRec { last_seen_state: Option<HardwareDebugState> }
 impl RegistryRec {
-    fn refresh_one(&mut self, wp: &mut WpRec, debugee: &DebugeeRec) -> Option<Error> {
+    fn refresh_one(&mut self, wp: &mut WpRec, debugee: &DebugeeRec) -> Option<LightErr> {
         /*@@FRAGMENT:REFRESH*/
     }
 }
